@@ -129,9 +129,28 @@ def _run_mat(ctx, spec, rng):
                 break
         else:
             dr = dc = [2] * n
+        if n >= 3 and rng.random() < 0.3:
+            # a square operator between two different factorisations of one space: the column dimensions are the row dimensions with a
+            # random subset of positions shuffled among themselves (equal totals, equal on the other positions) ...
+            for _try in range(50):
+                dr = gen.dims(rng, n, 1, 4 if n <= 4 else 3, max_total=64)
+                pos = sorted(int(v) for v in rng.permutation(n)[:int(rng.integers(2, n + 1))])
+                dc = list(dr)
+                for a_, b_ in zip(pos, rng.permutation(pos)):
+                    dc[a_] = dr[int(b_)]
+                if dc != dr:
+                    break
+            if spec[2] is None and rng.random() < 0.6:
+                # ... and a permutation that moves only some of the subsystems
+                moved = sorted(int(v) for v in rng.permutation(n)[:int(rng.integers(2, n))])
+                perm = list(range(n))
+                for a_, b_ in zip(moved, rng.permutation(moved)):
+                    perm[a_] = int(b_)
         big_r, big_c = int(np.prod(dr)), int(np.prod(dc))
         kind = "ifcb"[int(rng.integers(0, 4))] if rng.random() < 0.9 else "f4"
         x = gen.unique_ids((big_r, big_c), kind)
+        if big_r == big_c and kind != "b" and rng.random() < 0.2:
+            x = np.diag(np.diag(x))  # exactly diagonal operand (unique ids on the diagonal): structure a shortcut might single out
         x = gen.layout(x, ["C", "F", "strided", "neg", "ro"][int(rng.integers(0, 5))])
         fname, dim = _dimform(rng, dr, dc, x)
         inv = bool(rng.integers(0, 2))
